@@ -242,6 +242,16 @@ fn component(path: &str) -> &'static str {
 /// keeps running (each is reported in REPORT.md).  Empty = nothing skipped.
 pub const SKIPPED_SIGNATURES: &[&str] = &[];
 
+/// GENUINE FINDING (reported in REPORT.md, skipped here so that the rest keeps running):
+/// `write::LineProgram::set_address` in the middle of a sequence does not reset the writer's
+/// notion of the previous row's `op_index`, although `DW_LNE_set_address` resets the
+/// op_index register to 0.  For VLIW programs (maximum_operations_per_instruction > 1) a row
+/// that follows a mid-sequence `set_address` is therefore written with the wrong op_index
+/// (rel) or `op_advance` panics with `attempt to subtract with overflow` (dbg,
+/// write/line.rs `op_advance`).  While this constant is `true` the generators do not combine
+/// max_ops > 1 with a mid-sequence set_address.
+pub const SKIP_VLIW_MID_SEQUENCE_SET_ADDRESS: bool = true;
+
 fn report_diff(ctx: &mut Ctx, class: &str, api: &str, diff: &str, a: &D, b: &D, input: &dyn Fn() -> Value) {
     let path = diff.split(':').next().unwrap_or("");
     let sig = format!("c12.{}.{}.{}", class, api, component(path));
